@@ -64,6 +64,57 @@ theorem wavpack_info_decodes_partial (h : Fields) (ok : h.OK) (fits : h.fits32) 
     simp only [hnz, ↓reduceIte, expected, samples, rate, hts, List.map_cons, List.sum_cons]
 
 
+/-- what mutagen takes for the sample count: the stored count modulo 2^32 - 1 (the low 32 bits of the 40-bit field), or
+the sum of the blocks' counts when the header says "unknown" -/
+def reportedSamples (h : Fields) : Nat :=
+  match h.totalSamples with
+  | some t => t % (2 ^ 32 - 1)
+  | none => ((h.first :: h.more).map (·.samples)).sum
+
+/-- what `WavPackInfo` DOES report for ALL headers, the WavPack 5 40-bit sample counts included: everything as in
+`wavpack_info_decodes_partial`, with the sample count taken modulo 2^32 - 1 (the 40-bit value is stored as `t + t / (2^32-1)`
+and only its low 32 bits are read). -/
+theorem wavpack_info_reports (h : Fields) (ok : h.OK) (rest : Bytes)
+    (hrest : h.totalSamples = none → NoHeader rest) :
+    parse (build h ++ rest) = .ok { expected h with length := ⟨(reportedSamples h : Nat), rate h⟩ } := by
+  have hfl := flags_lt h ok
+  have ok' := ok
+  obtain ⟨hv, ht, hb1, hb4, hml, hsm, hri, hmh, hfirst, hmore⟩ := ok'
+  obtain ⟨hrow, hnz⟩ := wavpack_rates_rows h.rateIndex hri
+  have hidx : flags h / 2 ^ 23 % 16 = h.rateIndex := by unfold flags; split <;> omega
+  have hdsd : ¬ (flags h / 2 ^ 31 % 2 = 1) := by unfold flags; split <;> omega
+  have hbits : (flags h % 4 + 1) * 8 = 8 * h.bytesPerSample := by unfold flags; split <;> omega
+  have hmono : (flags h / 4 % 2 = 1) ↔ h.mono = true := by
+    unfold flags; cases h.mono <;> simp <;> omega
+  unfold parse build
+  simp only [buildBlocks, List.append_assoc, fromFileobj_block h ok 0 h.first hfirst, hidx, hrow, hdsd, hbits,
+    ↓reduceIte]
+  have hch : (if flags h / 4 % 2 = 1 then 1 else 2) = (if h.mono = true then 1 else 2) := by
+    by_cases hm : h.mono = true
+    · rw [if_pos hm, if_pos (hmono.mpr hm)]
+    · rw [if_neg hm, if_neg (fun hc => hm (hmono.mp hc))]
+  rw [hch]
+  cases hts : h.totalSamples with
+  | some t =>
+    have hst : storedTotal h % 2 ^ 32 = t % (2 ^ 32 - 1) := by
+      unfold storedTotal; rw [hts]; simp only; omega
+    have hne : ¬ (t % (2 ^ 32 - 1) = 2 ^ 32 - 1) := by omega
+    simp only [hst, hne, ↓reduceIte, Nat.zero_mod, hnz, expected, reportedSamples, rate, hts]
+  | none =>
+    have hst : storedTotal h % 2 ^ 32 = 2 ^ 32 - 1 := by
+      unfold storedTotal; rw [hts]; decide
+    have hpos : 8 + (24 + h.first.payload.length) = (buildBlock h 0 h.first).length := by
+      rw [length_buildBlock]; omega
+    have hfuel : h.more.length ≤ (buildBlock h 0 h.first ++ (buildBlocks h (0 + h.first.samples) h.more ++ rest)).length := by
+      have := length_le_buildBlocks h h.more (0 + h.first.samples)
+      simp only [List.length_append]; omega
+    simp only [hst, ↓reduceIte, hpos]
+    rw [sumBlocks_blocks h ok rest (hrest hts) h.more hmore (buildBlock h 0 h.first) (0 + h.first.samples) _ _ hfuel]
+    simp only [hnz, ↓reduceIte, expected, reportedSamples, rate, hts, List.map_cons, List.sum_cons]
+
+
+
+
 /-- C04 side: on EVERY byte string `WavPackInfo` either succeeds or raises a `MutagenError`
 (`WavPackHeaderError`); no other exception class, and the block-summing loop terminates. -/
 theorem wavpack_info_total (f : Bytes) : ∀ e, parse f = .error e → e = .mutagen := by
